@@ -87,6 +87,13 @@ class Check:
                 if t + "/" + nm_ not in have:
                     have.add(t + "/" + nm_)
                     world["nodes"].append({"path": t + "/" + nm_, "type": "file", "content": "x" * rng.choice([1, 10, 100])})
+        if rng.random() < (0.01 if tier == "thorough" else 0.004):
+            # far more rows than any internal batch or threshold (2^11 and beyond), few groups
+            t = tops[0]
+            nbig = rng.choice([2100, 3000, 4200])
+            world["nodes"].append({"path": t + "/big", "type": "dir"})
+            for i in range(nbig):
+                world["nodes"].append({"path": "%s/big/b%04d.%s" % (t, i, ("aa", "bb", "cc")[(i * 7 + i // 5) % 3]), "type": "file", "content": "x" * (i % 4)})
         if rng.random() < 0.12:
             # many groups (more than a small-sort threshold) whose keys mix integers and text
             t = tops[0]
